@@ -344,6 +344,11 @@ def mk_skip(rank, best_effort):
 
 def tasks(tier):
   ts = []
+  # "... inverse roots ... as preconditioners": the preconditioners in use at a step are those of the LATEST refresh, and the
+  # refresh happens on every multiple of the interval, warm-up included (shared with C04)
+  from contracts import c04
+  ts.append(Task("preconditioners are refreshed on every multiple of the interval[symbolic]", c04.mk_precond_cadence("sym")))
+  ts.append(Task("preconditioners are refreshed on every multiple of the interval[interval 1]", c04.mk_precond_cadence("one")))
   for r in (0, 1, 2, 3):
     for be in (True, False):
       ts.append(Task(f"skip decision[rank={r},best_effort={be}]", mk_skip(r, be)))
